@@ -119,7 +119,7 @@ func (g *c04gen) add(name string, parts []rawPart) *rawCmd {
 
 func (g *c04gen) one() {
 	mb := []string{"INBOX", "Archive", "box1"}[g.t.Choose(3)]
-	switch g.t.Choose(24) {
+	switch g.t.Choose(25) {
 	case 0:
 		g.add("LOGIN", cat("LOGIN ", g.str("user"), " ", g.str("pass")))
 	case 1:
@@ -212,6 +212,19 @@ func (g *c04gen) one() {
 		g.add("LOGOUT", cat("LOGOUT"))
 	case 21:
 		g.add("LOGIN", cat("LOGIN ", g.str("user"), " ", g.str("pass")))
+	case 24:
+		// command-like text right behind a literal argument, on the same line; the literal is well formed on the wire but
+		// may be refused for its value (invalid modified UTF-7) after it was read: the rest of the line is never a command
+		k := len(g.poison)
+		marker := fmt.Sprintf("POISON%d", k)
+		g.poison = append(g.poison, marker, fmt.Sprintf("PZN%d", k))
+		val := []string{"&&&", "box1", "&AOk", "a&b", "INBOX", "&-&"}[g.t.Choose(6)]
+		lit := rawPart{IsLit: true, Lit: []byte(val), Sync: g.t.Choose(2) == 0}
+		tail := fmt.Sprintf("PZN%d CREATE %s", k, marker)
+		if g.t.Choose(2) == 0 {
+			tail = " " + tail
+		}
+		g.add("ADMIN", cat([]string{"SELECT ", "DELETE ", "CREATE ", "STATUS ", "EXAMINE ", "SUBSCRIBE "}[g.t.Choose(6)], lit, tail))
 	case 22:
 		g.add("SELECT", cat("SELECT ", g.str(mb)))
 	default:
